@@ -650,6 +650,101 @@ def _is_top_of_stack(f, recv):
     return True
 
 
+def _par_1_split(ctx, rep, f, cfg, h, leaf_nodes, appends):
+    """_add_token split in two: `plan = self._helper(..., token)` where the helper pops until a plan is found and returns it,
+    or calls error_recovery(token) and returns None; the caller returns at once when it gets None.  The consume-exactly-once
+    argument then reads: in the helper None is returned exactly on the ways through error_recovery; in the caller the
+    None branch leaves without touching the stack and every other way to the exit appends the one converted leaf.
+    Returns False when the code does not have this shape (the caller then fails closed)."""
+    hcfg = ctx.cfg(h)
+    hrec = nodes_calling(hcfg, lambda c: is_method_call(c, 'error_recovery'))
+    calls = [n for n in cfg.nodes if n.kind == 'stmt' and isinstance(n.ast, ast.Assign) and len(n.ast.targets) == 1
+             and isinstance(n.ast.targets[0], ast.Name) and isinstance(n.ast.value, ast.Call)
+             and is_method_call(n.ast.value, h.name)]
+    if len(hrec) != 1 or len(calls) != 1 or len(leaf_nodes) != 1 or len(appends) != 1:
+        return False
+    var = calls[0].ast.targets[0].id
+    none_tests = [n for n in cfg.nodes if n.kind == 'test' and norm(n.ast) in ('%s is None' % var, '%s is not None' % var)]
+    if len(none_tests) != 1:
+        return False
+    t = none_tests[0]
+    none_label = 'T' if norm(t.ast).endswith('is None') else 'F'
+    # ---- helper: None <=> recovery ---------------------------------------------------------------------------
+    rets = [n for n in hcfg.nodes if n.kind == 'stmt' and isinstance(n.ast, ast.Return)]
+    none_rets = [n for n in rets if n.ast.value is None or (isinstance(n.ast.value, ast.Constant) and n.ast.value.value is None)]
+    other_rets = [n for n in rets if n not in none_rets]
+    rc = calls_in(hrec[0], lambda c: is_method_call(c, 'error_recovery'))[0]
+    tok_param = [a for a in h.params() if _role(a) == 'token' or a == 'token']
+    rep.ob('PAR-1', BASE, h.qual, norm(rc), bool(tok_param) and [norm(a) for a in rc.args] == [tok_param[0]],
+           'error_recovery is not handed the offending token')
+    # every way to a `return None` (or off the end of the helper) passes the recovery call
+    p = find_path(hcfg, [hcfg.entry], lambda n: n in none_rets, lambda n: n is hrec[0], follow_exc=True)
+    falls = find_path(hcfg, [hcfg.entry], lambda n: n is hcfg.exit, lambda n: n is hrec[0] or n in rets, follow_exc=True)
+    rep.ob('PAR-1', BASE, h.qual, 'None is returned only after error_recovery took the token', p is None and falls is None,
+           'the helper can answer "no plan" without the token having been handed to error_recovery: %s'
+           % ' -> '.join(path_text(p or falls or [])), witness=path_text(p or falls) if (p or falls) else None)
+    # after the recovery call nothing but `return None`
+    after = hcfg.reachable(start=hrec[0], labels_blocked=('exc',))
+    bad_after = [n for n in other_rets if n in after]
+    again = [n for n in after if n is not hrec[0] and calls_in(n, lambda c: is_method_call(c, 'error_recovery') or is_method_call(c, '_pop'))]
+    rep.ob('PAR-1', BASE, h.qual, 'after error_recovery the helper returns None', not bad_after and not again and bool(none_rets),
+           'after the token went to error_recovery the helper goes on (%s): the token is consumed a second time'
+           % (head((bad_after + again)[0].stmt) if (bad_after + again) else 'no return None'))
+    # ---- caller -------------------------------------------------------------------------------------------------
+    ap = calls_in(appends[0], lambda c: is_method_call(c, 'append'))[0]
+    leaf_var = None
+    st = leaf_nodes[0].ast
+    if isinstance(st, ast.Assign) and isinstance(st.targets[0], ast.Name):
+        leaf_var = st.targets[0].id
+    rep.ob('PAR-1', BASE, f.qual, norm(ap), leaf_var is not None and [norm(a) for a in ap.args] == [leaf_var]
+           and isinstance(ap.func.value, ast.Attribute) and _is_top_of_stack(f, ap.func.value.value),
+           'the converted leaf is not what gets appended to the top stack entry')
+    none_succ = [s2 for s2, lab in t.succ if lab == none_label]
+    # the None branch leaves without consuming again
+    reach_none = set()
+    for s2 in none_succ:
+        reach_none |= cfg.reachable(start=s2, labels_blocked=('exc',)) | {s2}
+    touched = [n for n in reach_none if n is appends[0] or n is leaf_nodes[0] or n is calls[0]
+               or calls_in(n, lambda c: is_method_call(c, 'append') or is_method_call(c, '_pop') or is_method_call(c, 'error_recovery'))]
+    rep.ob('PAR-1', BASE, f.qual, 'after "no plan" (%s) the token is not consumed again' % norm(t.ast), not touched,
+           'the token was handed to error_recovery by %s and is consumed again: %s' % (h.name, head(touched[0].stmt) if touched else ''))
+    # every other way to the exit appends the leaf
+    removed = {(t, none_label)}
+    seen, todo = {cfg.entry}, [cfg.entry]
+    leak = False
+    while todo:
+        n = todo.pop()
+        if n is cfg.exit:
+            leak = True
+            break
+        if n is appends[0]:
+            continue
+        for s2, lab in n.succ:
+            if lab == 'exc' or (n, lab) in removed or s2 in seen:
+                continue
+            seen.add(s2)
+            todo.append(s2)
+    rep.ob('PAR-1', BASE, f.qual, 'every normal exit consumes the token', not leak,
+           'path to a normal exit that neither appends the leaf nor went through error_recovery in %s' % h.name)
+    # the helper is called once, before the append, with the token
+    hc = calls[0].ast.value
+    rep.ob('PAR-1', BASE, f.qual, norm(hc), any(norm(a) == 'token' for a in hc.args) and appends[0] in cfg.reachable(start=calls[0], labels_blocked=('exc',))
+           and calls[0] not in (cfg.reachable(start=appends[0], labels_blocked=('exc',)) - {appends[0]}),
+           'the helper is not handed the token, or runs again after the leaf was appended')
+    # destructuring + argument roles of convert_leaf (as in the unsplit form)
+    unpack = [n for n in walk_own(f.node) if isinstance(n, ast.Assign) and norm(n.value) == 'token' and isinstance(n.targets[0], ast.Tuple)]
+    roles_ok = bool(unpack) and [_role(norm(e)) for e in unpack[0].targets[0].elts] == ['type', 'value', 'start_pos', 'prefix']
+    rep.ob('PAR-1', BASE, f.qual, norm(unpack[0]) if unpack else 'type_, value, start_pos, prefix = token', roles_ok,
+           'token fields are not unpacked in (type, value, start_pos, prefix) order')
+    cl = calls_in(leaf_nodes[0], lambda c: is_method_call(c, 'convert_leaf'))[0]
+    for callee in ctx.cg._methods_in_hierarchy(ctx.prog.cls(BASE, 'BaseParser'), 'convert_leaf'):
+        b = _bind_call(cl, callee)
+        good = b is not None and all(isinstance(v, ast.Name) and _role(v.id) == _role(k) for k, v in b.items()) and len(b) == 4
+        rep.ob('PAR-1', callee.mod.rel, callee.qual, norm(cl), good,
+               'argument/parameter roles differ: %s' % ({k: norm(v) for k, v in (b or {}).items()},))
+    return True
+
+
 def par_1(ctx, rep):
     rep.rule('PAR-1', 'every token is consumed exactly once on every non-raising path of _add_token / error_recovery: '
                       'as one leaf appended to the top stack entry, by one re-feed through _add_token, or as one error '
@@ -665,11 +760,19 @@ def par_1(ctx, rep):
         for k in sorted(ctx.parts_of([f.key])):
             h = prog.funcs[k]
             if any(isinstance(c, ast.Call) and is_method_call(c, 'error_recovery') for c in walk_own(h.node)):
-                raise AnalysisError('PAR-1: the call of error_recovery moved from _add_token into its helper %s; the '
-                                    'consume-exactly-once argument across that call is not modelled' % h.qual)
-    ok = len(leaf_nodes) == 1 and len(appends) == 1 and len(recov) == 1
-    rep.ob('PAR-1', BASE, f.qual, 'one convert_leaf, one append to .nodes, one error_recovery call', ok,
-           'found %d convert_leaf, %d appends, %d error_recovery calls' % (len(leaf_nodes), len(appends), len(recov)))
+                if _par_1_split(ctx, rep, f, cfg, h, leaf_nodes, appends):
+                    recov = 'in-helper'
+                    break
+                raise AnalysisError('PAR-1: the call of error_recovery moved from _add_token into its helper %s in a shape '
+                                    'that is not modelled' % h.qual)
+    if recov == 'in-helper':
+        ok = False          # the obligations of the split form have been recorded by _par_1_split
+    else:
+        ok = None
+    if ok is None:
+        ok = len(leaf_nodes) == 1 and len(appends) == 1 and len(recov) == 1
+        rep.ob('PAR-1', BASE, f.qual, 'one convert_leaf, one append to .nodes, one error_recovery call', ok,
+               'found %d convert_leaf, %d appends, %d error_recovery calls' % (len(leaf_nodes), len(appends), len(recov)))
     if ok:
         leaf_var = None
         st = leaf_nodes[0].ast
